@@ -36,7 +36,8 @@ import PromModel.Tsdb.Intervals
     over Go's `container/heap`); a label set present in one block only by-passes `mergeFunc`
     (`genericMergeSeriesSet.At`), otherwise `mergeFunc` (the compacting merger `compactAll` by default —
     `PopulateBlock`'s `overlapping` flag only feeds a metric and a log line —, or the concatenating merger
-    when the compactor was built with it); series whose chunk iterator yields nothing are skipped;
+    when the compactor was built with it: `concatIterAll`, the step-by-step transcription of
+    `concatenatingChunkIterator.Next`, equal to C19's `concatAll` = `flatten` by `concatIterAll_eq`); series whose chunk iterator yields nothing are skipped;
     `index.Writer.AddSeries` rejects a label set that is not above the previous one and chunks that are
     not strictly ordered / disjoint (so an unsorted result of the concatenating merger is an error, not a
     block); `meta.Stats` is accumulated series by series, histogram/float split by the chunk's encoding.
@@ -158,6 +159,31 @@ def blockSets (mint maxt : Int) : List Block → Except Err (List (List CS))
 inductive Merger | compact | concat
 deriving Repr, DecidableEq, Inhabited
 
+/-- `concatenatingChunkIterator.Next` (`storage/merge.go`).  The state is `iterators[idx:]`, each input
+    iterator as the list of chunks it still holds: `[]` = `idx >= len(iterators)` → `false`;
+    the current input has a chunk → `curr` = that chunk, `true`; the current input is exhausted (its `Err()`
+    is nil: a failing block reader is an error of `blockSets` before the merge function is ever called) →
+    `idx++; return c.Next()`.  The recursion walks over ANY number of exhausted inputs — an input series
+    that yields no chunk at all (every sample deleted by partial tombstones) in first, middle or last
+    position, or several of them in a row, is stepped over. -/
+def concatNext : List (List Chunk) → Option (Chunk × List (List Chunk))
+  | [] => none
+  | (c :: cs) :: r => some (c, cs :: r)
+  | [] :: r => concatNext r
+
+/-- `for it.Next() { … it.At() … }` over the concatenating iterator -/
+def concatDrain : Nat → List (List Chunk) → List Chunk
+  | 0, _ => []
+  | fuel + 1, its =>
+    match concatNext its with
+    | none => []
+    | some (c, its') => c :: concatDrain fuel its'
+
+/-- all chunks `NewConcatenatingChunkSeriesMerger` hands out for the given input series (fuel: one step
+    per chunk and one for the final `false`; never exhausted — `Prom.BlockPopulate.concatIterAll_eq`) -/
+def concatIterAll (series : List (List Chunk)) : List Chunk :=
+  concatDrain ((series.foldl (fun n cs => n + cs.length) 0) + 1) series
+
 /-- `genericMergeSeriesSet.At` + expansion of the chunk iterator -/
 def mergeGroup (m : Merger) (g : List CS) : Except Err (Option CS) :=
   match g with
@@ -165,7 +191,7 @@ def mergeGroup (m : Merger) (g : List CS) : Except Err (Option CS) :=
   | [x] => .ok (some x)
   | x :: _ =>
     match m with
-    | .concat => .ok (some (x.1, concatAll (g.map (·.2))))
+    | .concat => .ok (some (x.1, concatIterAll (g.map (·.2))))
     | .compact =>
       match compactAll (g.map (·.2)) with
       | (cs, .fin) => .ok (some (x.1, cs))
